@@ -21,12 +21,13 @@ RULE = (
     "up to 25 events, 3 names. Histories the model deems invalid C are skipped; events that trigger a known finding (an "
     "enumerator or label spelled like a visible typedef: F15, F16) are skipped and counted. Non-trivial: the history contains "
     "a shadowing of a typedef by an inner declaration and a scope exit after it; distinct by construction / by hash."
+    " A 'braces' event (initializer lists, compound literals, sizeof of a compound literal, member lists inside expressions; 10 block-scope and 6 file-scope forms) stands for brace constructs that are not scopes. "
 )
 ASSUMPTIONS = ["the reference scope model in this module (written from C99 6.2.1, not from c_parser.py)"]
 
 NAMES = ["T", "U"]
-KINDS = ["td", "obj", "objp", "fn", "enumr", "tag", "member", "proto", "label", "funcopen", "funcparam", "funcnamed", "open", "close", "endfunc"]
-NAMELESS = ("funcopen", "open", "close", "endfunc")
+KINDS = ["td", "obj", "objp", "fn", "enumr", "tag", "member", "proto", "label", "funcopen", "funcparam", "funcnamed", "open", "close", "endfunc", "braces"]
+NAMELESS = ("funcopen", "open", "close", "endfunc", "braces")
 EVENTS = [(k, n) for k in KINDS for n in NAMES if not (k in NAMELESS and n != "T")]
 
 
@@ -177,6 +178,18 @@ def build(seq, names=NAMES, probe_kinds=None):
             scopes.append({})
             st["in_func"] = True
             st["depth"] = 0
+        elif ev == "braces":
+            # braces that are not a block: initializer lists, compound literals,
+            # member lists.  They declare none of the names and open no scope
+            # that outlives them.
+            if in_func:
+                forms = ["cw{f} = (int[]){{ 1, 2 }}[0];", "sizeof (int){{ 1 }};", "(void)&(struct cl{f} {{ int a; }}){{ 1 }};", "int ar{f}[2] = {{ 1, 2 }};",
+                         "struct {{ int a[2]; }} sv{f} = {{ .a = {{ 1 }} }};", "cw{f} = sizeof (struct {{ int a; }});", "cw{f} = ((int){{ 1 }}) + (char){{ 2 }};",
+                         "for (int i{f} = (int){{ 0 }}; i{f} < 1; i{f}++) ;", "switch ((int){{ 1 }}) {{ case 1: ; }}", "cw{f} = (int[2]){{ [1] = 2 }}[1] + sizeof (int[]){{ 1 }};"]  # fmt: skip
+            else:
+                forms = ["int ar{f}[2] = {{ 1, 2 }};", "struct {{ int a[2]; }} sv{f} = {{ .a = {{ 1 }} }};", "int *cp{f} = (int[]){{ 1, 2 }};", "int sz{f} = sizeof (int){{ 1 }};",
+                         "enum {{ ee{f} = sizeof (struct {{ int a; }}) }};", "int sy{f} = sizeof (int[]){{ 1 }} + sizeof (char){{ 2 }};"]  # fmt: skip
+            out.append(forms[v % len(forms)].format(f=f))
         elif ev == "open":
             if not in_func:
                 raise Invalid("block outside a function")
